@@ -5,7 +5,7 @@
 (* property needs (canonical string, first dictionary type = natural type, *)
 (* prefix closure, all-or-nothing overlay ...) and dumps the calls, which  *)
 (* are then executed against the implementation.                           *)
-EXTENDS Spil
+EXTENDS Universe
 CONSTANTS Family,        \* "forms" | "nav" | "query" | "getwith" | "eqlaws"
           NConcrete,     \* concrete values per placeholder
           Symbols,       \* search symbols added to the value sets, e.g. {"*", ">"}
@@ -24,7 +24,14 @@ Vals(ph) == Concrete(ph) \cup {s \in Symbols : Accepts(ph, s)} \cup AliasVals(ph
 Strings(i) == SetProd([j \in DOMAIN Templates[i].ph |-> Vals(Templates[i].ph[j])])
 AllStrings == UNION {Strings(i) : i \in TIdx}
 QSafe(segs) == \A j \in DOMAIN segs : segs[j] \in ToSet(Raw.qsafe)
+EmptyValued(i) == LET f == [j \in DOMAIN Templates[i].ph |-> IF Raw.accept[Templates[i].ph[j]].any THEN "" ELSE
+                                   (CHOOSE v \in Concrete(Templates[i].ph[j]) : TRUE)]
+                  IN IF \E j \in DOMAIN f : f[j] = "" THEN {f} ELSE {}
 SidCall(segs) == [op |-> "sid", uri |-> <<>>, segs |-> segs, query |-> <<>>]
+\* names that are prefixes of one another and continue with characters below '/' ('oph', 'oph-x', 'gertrude.b', 'rain+'),
+\* at the level of the name and one level deeper: where whole-string order and part-by-part order disagree
+OpenNamed(i) == UNION {{SubSeq([FirstString(i) EXCEPT ![j] = Raw.open_values[n]], 1, m) : n \in 2..6, m \in {j, j + 1} \cap (1..Len(Templates[i].ph))} :
+                          j \in {jj \in DOMAIN Templates[i].ph : Raw.accept[Templates[i].ph[jj]].any}}
 Junk == { <<"junk">>, <<"hamlet", "zz">>, <<>>, <<"junk", "a", "char">>, <<"", "">> }
 
 (* ---- C04 overlays ---- *)
@@ -56,6 +63,10 @@ CallsOf(i) ==
   ELSE IF Family = "nav" THEN
      {[op |-> "nav", uri |-> <<>>, segs |-> s, query |-> <<>>, via |-> via, seed |-> Len(s), foreign |-> <<"foo", "node">>] :
          s \in StringsOf(i), via \in {"string", "uri", "fields_shuffled", "query_shuffled", "getwith", "path"}}
+     \* typed Sids whose unrestricted keys hold the EMPTY value (a query cannot carry an empty value, a path cannot hold an
+     \* empty component: those two constructors are left out)
+     \cup {[op |-> "nav", uri |-> <<>>, segs |-> s, query |-> <<>>, via |-> via, seed |-> Len(s), foreign |-> <<"foo", "node">>] :
+         s \in EmptyValued(i), via \in {"string", "uri", "fields_shuffled", "getwith"}}
   ELSE IF Family = "query" THEN
      UNION {{[op |-> "query", uri |-> <<>>, segs |-> s, mode |-> mode, pairs |-> ov] :
                 mode \in {"trailing", "getwith_query"}, ov \in Overlays(MkFromString(SidCall(s)))} : s \in Strings(i)}
@@ -67,6 +78,9 @@ CallsOf(i) ==
      {[op |-> "eqlaws", a |-> [op |-> "sid", uri |-> ty(s1, u1), segs |-> s1, query |-> <<>>],
                         b |-> [op |-> "sid", uri |-> ty(s2, u2), segs |-> s2, query |-> <<>>]] :
          s1 \in StringsOf(i), s2 \in AllStrings \cup Junk, u1 \in {0, 1}, u2 \in {0, 1}}
+     \cup {[op |-> "eqlaws", a |-> [op |-> "sid", uri |-> <<>>, segs |-> s1, query |-> <<>>],
+                             b |-> [op |-> "sid", uri |-> <<>>, segs |-> s2, query |-> <<>>]] :
+         s1 \in OpenNamed(i), s2 \in OpenNamed(i)}
 Init == \E i \in TIdx : call = [op |-> "seed", t |-> i]
 Next == call.op = "seed" /\ \E c \in CallsOf(call.t) : (c.op = "getwith" /\ c.mode = "kv" => Len(c.kw) = 1) /\ call' = c
 Spec == Init /\ [][Next]_vars
